@@ -189,6 +189,7 @@ def build_replay():
     import shutil
     tag = hashlib.sha1(REPO.encode()).hexdigest()[:8]
     srcdir = os.path.join(WORK, "replay-src-" + tag)
+    shutil.rmtree(os.path.join(srcdir, "src", "bin"), ignore_errors=True)
     os.makedirs(os.path.join(srcdir, "src"), exist_ok=True)
     tpl = open(os.path.join(ROOT, "replay", "Cargo.toml.in")).read().replace("@REPO@", REPO)
     with open(os.path.join(srcdir, "Cargo.toml"), "w") as f:
@@ -232,11 +233,50 @@ def vreplay(args, stdin=None, timeout=600):
     return p, ""
 
 
+def vgen(name, source, args, timeout=1800):
+    """compile a GENERATED program against the tree under check (as src/bin/<name>.rs of the replay crate) and run it"""
+    binp, err = replay_bin()
+    if binp is None:
+        return None, "replay crate does not build: " + err
+    tag = hashlib.sha1(REPO.encode()).hexdigest()[:8]
+    srcdir = os.path.join(WORK, "replay-src-" + tag)
+    os.makedirs(os.path.join(srcdir, "src", "bin"), exist_ok=True)
+    fpath = os.path.join(srcdir, "src", "bin", name + ".rs")
+    with open(fpath, "w") as f:
+        f.write(source)
+    env = dict(os.environ)
+    env["CARGO_NET_OFFLINE"] = "true"
+    env["CARGO_TARGET_DIR"] = os.path.join(WORK, "replay-target-" + tag)
+    try:
+        p = subprocess.run(["cargo", "build", "--offline", "--quiet", "--bin", name], cwd=srcdir, env=env,
+                           stdout=subprocess.PIPE, stderr=subprocess.PIPE, text=True)
+        keep = os.path.join(WORK, name + ".generated.rs")
+        shutil_copy(fpath, keep)
+    finally:
+        try:
+            os.remove(fpath)
+        except OSError:
+            pass
+    gbin = os.path.join(env["CARGO_TARGET_DIR"], "debug", name)
+    if p.returncode != 0 or not os.path.exists(gbin):
+        return None, "generated program does not compile against the tree under check: " + p.stderr[-3000:]
+    try:
+        r = subprocess.run([gbin] + list(args), stdout=subprocess.PIPE, stderr=subprocess.PIPE, text=True, timeout=timeout)
+    except subprocess.TimeoutExpired:
+        return None, "generated program timed out"
+    return r, ""
+
+
+def shutil_copy(a, b):
+    import shutil
+    shutil.copy(a, b)
+
+
 def find_witness(uname, failure):
     try:
         mod = importlib.import_module("units." + uname)
         if hasattr(mod, "witness"):
-            return mod.witness(failure, {"vreplay": vreplay, "root": ROOT, "work": WORK})
+            return mod.witness(failure, {"vreplay": vreplay, "vgen": vgen, "root": ROOT, "work": WORK})
     except Exception as e:
         return {"error": "witness search failed: %s" % e, "found": False}
     return None
